@@ -8,7 +8,7 @@ fn c16_opreturn_printed_lines() {
     let suite = "c16_opreturn_printed_lines";
     let mut rng = Rng::new(16);
     let payloads: Vec<Vec<u8>> = vec![b"hello world".to_vec(), "gr\u{fc}\u{df}e \u{4e16}\u{754c}".as_bytes().to_vec(), vec![0x41; 75], vec![0x42; 76], vec![0x43; 80],
-        vec![0x44; 255], vec![0x45; 256], vec![0x46; 3000], vec![0x47; 249], vec![0x48; 250], vec![0x49; 251], vec![0x4a; 252], vec![0x4b; 253], vec![0xff, 0xfe, 0x41], vec![0xc3], vec![], b"a".to_vec(), b"  spaced  ".to_vec()];
+        vec![0x44; 255], vec![0x45; 256], vec![0x46; 3000], vec![0x47; 249], vec![0x48; 250], vec![0x49; 251], vec![0x4a; 252], vec![0x4b; 253], vec![0xff, 0xfe, 0x41], vec![0xc3], vec![], b"hi\xe2\x82".to_vec(), b"ok\xf0\x9f\x98".to_vec(), b"hi\xe2\x82A".to_vec(), b"a".to_vec(), b"  spaced  ".to_vec()];
     let push = |d: &[u8], form: u8| -> Vec<u8> { let mut v = match form {
         0 => vec![d.len() as u8], 1 => vec![0x4c, d.len() as u8],
         2 => { let mut x = vec![0x4d]; x.extend_from_slice(&(d.len() as u16).to_le_bytes()); x }
@@ -20,7 +20,7 @@ fn c16_opreturn_printed_lines() {
         if (form == 0 && p.len() > 75) || (form == 1 && p.len() > 255) { continue; }
         k = k.wrapping_add(1);
         let s = [vec![0x6a], push(p, form)].concat();
-        let tx = TxSpec::new(vec![TxIn::new([k; 32], form as u32, vec![0x51])], vec![TxOut::new(1, p2pkh_script(&[k; 20])), TxOut::new(0, s.clone()), TxOut::new(2, vec![0x51]), TxOut::new(0, s)]);
+        let tx = TxSpec::new(vec![TxIn::new([k; 32], form as u32, vec![0x51])], vec![TxOut::new(1, p2pkh_script(&[k; 20])), TxOut::new(0, s.clone()), TxOut::new(2, vec![0x51]), TxOut::new(if k % 2 == 0 { 100_000 } else { 1 }, s)]);   // (the second OP_RETURN output carries a value: burned coins are still printed)
         txs.push((tx, p.clone()));
     } }
     // also scripts that are NOT op_return: must print nothing
